@@ -39,18 +39,18 @@ impl Check for C14 {
     const ID: &'static str = "C14";
     fn rule() -> String {
         "Writer programs with rule-following prototypes containing any subset of Cartesian / spherical / row-column-return / colour / intensity \
-         groups in any data type, non-NaN point sequences (empty, single, boundary-heavy, sign-mixed), limit overrides none / complete / partial. \
+         groups in any data type, non-NaN point sequences (empty, single, boundary-heavy, sign-mixed), 1 history in 3 interleaved with add_point calls that must be rejected (wrong kind / integer out of range / wrong arity in one column, extreme storable values in the others), limit overrides none / complete / partial. \
          Oracle after write -> read: every bound equals min/max over the added points of the attribute's real value (scaled integers value*scale+offset \
          computed independently), compared numerically; group present iff the prototype has it; all fields absent with 0 points; every point read \
          back lies within the bounds; default limits equal the declared range when the type declares both ends (else absent); a complete override is \
-         stored as given. Non-trivial: >= 3 points with a bounded group, or scaled-integer coordinates, or an override."
+         stored as given. Non-trivial: >= 3 points with a bounded group, or scaled-integer coordinates, or an override, or a history with rejected points."
             .into()
     }
     fn budget(t: Tier) -> usize {
         t.pick(60_000, 10_000_000)
     }
     fn gen(s: &mut Src, _t: Tier) -> Case {
-        let o = GenOpts { density: 1, max_ops: 2, max_values: 2000, images: false, blobs: false, nan_ok: false, fat_chance: (0, 1), ..GenOpts::default() };
+        let o = GenOpts { density: 1, max_ops: 2, max_values: 2000, images: false, blobs: false, nan_ok: false, fat_chance: (0, 1), reject_chance: (1, 3), ..GenOpts::default() };
         let mut p = prog::valid_program(s, &o);
         for op in &mut p.ops {
             if let Op::Cloud(c) = op {
@@ -107,6 +107,9 @@ impl Check for C14 {
         }
         for (ci, (spec, cl)) in specs.iter().zip(got.clouds.iter()).enumerate() {
             let pts = spec.points();
+            if !spec.rejects.is_empty() {
+                v.nt("history_with_rejected_points");
+            }
             let (cart, sph, idx) = prog::expected_bounds(&spec.proto, &pts);
             let names_c = ["xMinimum", "xMaximum", "yMinimum", "yMaximum", "zMinimum", "zMaximum"];
             let names_s = ["rangeMinimum", "rangeMaximum", "elevationMinimum", "elevationMaximum", "azimuthStart", "azimuthEnd"];
